@@ -29,7 +29,7 @@ func (e *twinEnv) snapshotRun(h History, mode int) (queries int, problem string)
 	for _, n := range h.Accounts {
 		accs = append(accs, world.NewAccount(n))
 	}
-	w := world.New(world.Options{Accounts: accs, DB: dbm.NewMemDB(), Mutate: genesisVariants[h.Genesis]})
+	w := world.New(world.Options{Accounts: accs, DB: dbm.NewMemDB(), Mutate: genesisVariants[h.Genesis], ExtraCoins: twinExtraCoins})
 	recorded := map[int64][]string{}
 	last := int64(1)
 	recorded[1] = e.runQueries(w, 1)
